@@ -159,15 +159,16 @@ MUTANTS = {
          "new": "        else:\n            from copy import copy as shallow\n\n"
                 "            obj_copy = deepcopy(self) if hasattr(self, \"_children\") else shallow(self)\n"},
         {"name": "kwargs_applied_to_original", "kind": "sub", "file": BG,
-         "old": "                setattr(obj_copy, k, v)\n",
-         "new": "                setattr(obj_copy if k != \"handedness\" else self, k, v)\n                setattr(obj_copy, k, v)\n"},
+         "old": "            elif k != \"parent\" and k not in tree_kwargs:\n                setattr(obj_copy, k, v)\n",
+         "new": "            elif k != \"parent\" and k not in tree_kwargs:\n"
+                "                setattr(obj_copy if k != \"handedness\" else self, k, v)\n"
+                "                setattr(obj_copy, k, v)\n"},
         {"name": "initialised_style_shared", "kind": "sub", "file": BG,
          "old": "            obj_copy.style.label = label\n",
          "new": "            obj_copy.style.label = label\n            obj_copy.style.path = self.style.path\n"},
         {"name": "position_array_shared", "kind": "sub", "file": BG,
-         "old": "        style_kwargs = {}\n        for k, v in kwargs.items():\n            if k.startswith(\"style\"):\n",
-         "new": "        obj_copy._position = self._position\n        style_kwargs = {}\n        for k, v in kwargs.items():\n"
-                "            if k.startswith(\"style\"):\n"},
+         "old": "        style_kwargs = {}\n        tree_kwargs = (",
+         "new": "        obj_copy._position = self._position\n        style_kwargs = {}\n        tree_kwargs = ("},
         {"name": "parent_kept_on_copy_of_nested_collection", "kind": "sub", "file": BG,
          "old": "            try:\n                obj_copy = deepcopy(self)\n            finally:\n                self._parent = parent\n",
          "new": "            try:\n                obj_copy = deepcopy(self)\n            finally:\n                self._parent = parent\n"
@@ -183,7 +184,7 @@ MUTANTS = {
         # 1507b76 (caller's style dictionaries) cannot be reverse-applied any more (082e3ec rewrote the same lines
         # of magic_to_dict): its parts as substitutions
         {"name": "ctor_keeps_callers_style_dict", "kind": "sub", "file": BG,
-         "old": "        if isinstance(style, dict):\n            style = deepcopy(style)\n        if kwargs:\n",
+         "old": "        if style is not None:\n            style = deepcopy(style)\n        if kwargs:\n",
          "new": "        if kwargs:\n"},
         {"name": "magic_to_dict_merges_in_place", "kind": "sub", "file": DU,
          "old": "    merged = dict(first)\n",
@@ -191,7 +192,9 @@ MUTANTS = {
         {"name": "revert_fix_dict_assignment_merge", "kind": "revert", "commit": "0497686"},
         {"name": "revert_fix_style_reset", "kind": "revert", "commit": "f3dd4e6"},
         {"name": "revert_fix_label_key", "kind": "revert", "commit": "282ec0a"},
-        {"name": "revert_fix_tricoll_traces", "kind": "revert", "commit": "d85c7fa"},
+        # (the revert of d85c7fa - to_TriangleCollection() handing over the mesh's Trace3d objects - stopped being
+        #  a regression with b241992: Trace3d objects are now copied on entry, whoever hands them over; the seeded
+        #  change C20_g and `revert_fix_trace_objects_copied` guard the same clause)
         {"name": "revert_fix_alias", "kind": "revert", "commit": "0b26a89"},
         {"name": "magic_copy_is_shallow", "kind": "sub", "file": "magpylib/_src/defaults/defaults_utility.py",
          "old": "        \"\"\"returns a copy of the current class instance\"\"\"\n        return deepcopy(self)\n",
@@ -327,7 +330,8 @@ def cmd_mutants(args, home):
             prev = {}
     for r in results:
         prev[(r["property"], r["mutant"])] = r
-    doc["results"] = sorted(prev.values(), key=lambda r: (r["property"], r["mutant"]))
+    current = {(p, m["name"]) for p, ms in MUTANTS.items() for m in ms}  # results of retired mutants are dropped
+    doc["results"] = sorted((r for k, r in prev.items() if k in current), key=lambda r: (r["property"], r["mutant"]))
     json.dump(doc, open(sel, "w"), indent=1)
     # clean replay files produced against scratch copies
     print(f"mutants: {sum(r['status'] == 'caught' for r in results)}/{len(results)} caught")
